@@ -99,10 +99,21 @@ TEXT.update({
 TEXT.update({
     'C02': dict(
         technique='deductive verification (Verus): inclusion invariant J + origin invariant of Mapper::step on the real code, lifted to histories by the verified universal client',
-        level_text=('Proof, unbounded, of clauses (a), (c), (d): (a) at every prefix of every history every key held on the virtual keyboard is physically held or is an output key of a layout mapping all of whose trigger '
-                    'keys are physically held (J1-J3, "every mapping in effect is a mapping of the layout" through the grouped-layout postcondition of make_hashed_layout, pressed is a subset of physically held); (c) a step for a '
-                    'release emits only releases; (d) a held key that is a trigger key of a mapping in effect is an output key of a mapping in effect (J4, needs the D6 repair). Clause (b) is not covered by a contract yet.'),
-        design_ref='6.2', level_note=MAPPER_NOTE + ' Clause (b) of the statement is outside the claim (the witness oracle still tests it).'),
+        level_text=('Proof, unbounded, of all four clauses: (a) at every prefix of every history every key held on the virtual keyboard is physically held or is an output key of a layout mapping all of whose trigger '
+                    'keys are physically held (J1-J3, "every mapping in effect is a mapping of the layout" through the grouped-layout postcondition of make_hashed_layout, pressed is a subset of physically held); (b) a key '
+                    'with a single-key mapping that occurs in no output is never down (the only keys a step presses are outputs of the fired mapping or the pressed key itself when nothing fires, and a single-key mapping '
+                    'always fires: lemma_single_fires); (c) a step for a release emits only releases; (d) a held key that is a trigger key of a mapping in effect is an output key of a mapping in effect (J4, needs the D6 repair).'),
+        design_ref='6.2', level_note=MAPPER_NOTE),
+    'C05': dict(
+        technique='deductive verification (Verus): lift-scope / drop-scope postconditions carried from release_action_mappings, release_absorbed_keys, remove_mapping, add_new_mapping, newly_press, newly_release to Mapper::step on the real code, lifted by the verified client universal_client_c05',
+        level_text=('Proof, unbounded, per step of every history from every reachable state: every Released(x) a press step emits satisfies Mapper::lift_scope (x is an output of a key-producing mapping in effect that '
+                    'carries modifiers, a passed-through trigger key of the fired mapping that it does not output, a non-modifier output of the fired mapping, any non-modifier key when the fired mapping has Disabled/Special '
+                    'repeat, or - only while keys are absorbed - a held mapping output / an absorbed key); every Released(x) a release step emits satisfies Mapper::drop_scope (x is the released key or an output of a mapping '
+                    'in effect that has it in its trigger, and no mapping remaining in effect outputs x). From these and "mappings in effect / absorbed keys come from the layout" the client proves: a key that appears '
+                    'nowhere in the layout is pressed exactly by the step of its own press, as the last event, is lifted only by its own release or (non-modifier) by a step firing a no-repeat mapping, and is down only '
+                    'while considered pressed; with an empty layout every well-formed event is forwarded as the only event of its step; the release clause; the two in-effect clauses for layouts without absorbing. '
+                    'One helper contract is assumed (is_any_modifier, an iterator adapter) and validated by a bounded enumeration on every run.'),
+        design_ref='6.5', level_note=MAPPER_NOTE + ' The contract of is_any_modifier is assumed (external_body) and backed only by a bounded comparison.'),
     'C03': dict(
         technique='deductive verification (Verus): firing specification of newly_press / add_new_mapping against a layout-level spec function, on the real code, lifted by the universal client',
         level_text=('Proof, unbounded, from every reachable state: the mapping that takes effect on a new key press is layout_fired(layout, pressed, absorbed, k) - by definition the last-listed mapping whose final trigger '
